@@ -393,6 +393,10 @@ def canon_eq(a, b):
     for (k1, s1, o1, n1), (k2, s2, o2, n2) in zip(a, b):
         if k1 != k2:
             return False
+        if k1 == "R":            # rank family of the text of a value: identified by the value's own segment
+            if not canon_eq([s1], [s2]):
+                return False
+            continue
         if k1 == "D":
             if not (s1 == s2):
                 return False
@@ -505,6 +509,53 @@ def concretize_buf(buf, files):
         else:
             raise ValueError("cannot concretise segment kind %s" % k)
     return bytes(out)
+
+
+class ReprKey:
+    """str()/repr() of bytes the model does not know: an opaque text whose collation order is a second family of
+    ranks, unrelated to the byte order of the same values (b'0' < b'\\x10' as text, > as bytes)."""
+
+    def __init__(self, buf):
+        c = buf.canon()
+        if len(c) != 1 or c[0][0] not in "DG":
+            raise Unsupported("str() of a composite abstract buffer")
+        self.seg = c[0]
+
+    def _rank(self):
+        return rank_of(("R", tuple(self.seg), 0, 0))
+
+    def _cmp(self, o, op):
+        if not isinstance(o, ReprKey):
+            raise Unsupported("comparison of the text of unknown bytes with %r" % (o,))
+        if canon_eq([self.seg], [o.seg]):
+            return op(0, 0)
+        return op(self._rank(), o._rank())
+
+    def __lt__(self, o):
+        return self._cmp(o, lambda a, b: a < b)
+
+    def __le__(self, o):
+        return self._cmp(o, lambda a, b: a <= b)
+
+    def __gt__(self, o):
+        return self._cmp(o, lambda a, b: a > b)
+
+    def __ge__(self, o):
+        return self._cmp(o, lambda a, b: a >= b)
+
+    def __eq__(self, o):
+        return isinstance(o, ReprKey) and canon_eq([self.seg], [o.seg])
+
+    def __hash__(self):
+        return 31
+
+    def __str__(self):
+        return "<text of bytes>"
+
+    __repr__ = __str__
+
+    def __format__(self, spec):
+        return "<text of bytes>"
 
 
 def rank_of(seg):
